@@ -206,7 +206,7 @@ PROPS = {
     },
     "C13": {
         "level": "exploration",
-        "rule": ("exhaustive: all histories of ControlPoints::add calls of length <= 3 (quick) / 5 (thorough) over 32 operations (4 kinds x times {-1,0,1,2} x 2 values); "
+        "rule": ("exhaustive: all histories of ControlPoints::add calls of length <= 4 (quick) / 5 (thorough) over 32 operations (4 kinds x times {-1,0,1,2} x 2 values); "
                  "random histories of 10-200 operations over pooled fractional/negative/duplicate times including -0.0 and values that are redundant, different, or "
                  "below the redundancy epsilon. After every operation all four lists are compared with a linear-scan reference, strict order is asserted, and all four "
                  "lookups are probed at every stored time, every midpoint and beyond both ends. non-trivial = history of at least 2 operations; distinct by hash of the history"),
